@@ -445,9 +445,14 @@ func judgeOrigin(reqScheme string, req otuple, trusted []trustEntry, origin, ref
 		rel = "garbage"
 	default:
 		allowedOK, why = allowed(gov.tuple, req, trusted)
-		if allowedOK {
+		switch {
+		case allowedOK:
 			rel = why
-		} else {
+		case gov.tuple.host == req.host && gov.tuple.scheme != req.scheme:
+			rel = "scheme-mismatch" // the site's own host on the other scheme
+		case gov.tuple.host == req.host:
+			rel = "port-mismatch"
+		default:
 			rel = coarse(gov.relation)
 		}
 	}
